@@ -74,6 +74,9 @@ class Mini:
             return 0
         if e.cv is not None and k != 'DeclRefExpr':
             return e.cv
+        if e.fv is not None and k != 'DeclRefExpr':
+            from fractions import Fraction
+            return Fraction(e.fv)
         if k == 'DeclRefExpr':
             if e.dk == 'enum':
                 return e.cv
@@ -137,6 +140,11 @@ class Mini:
                 else:
                     raise AnalysisBroken('mini-interpreter: pointer operator %s' % op)
             import operator as O
+            if op == '/' and (e.t or '') in ('double', 'float', 'long double'):
+                from fractions import Fraction
+                if b == 0:
+                    raise AnalysisBroken('mini-interpreter: division by zero')
+                return Fraction(a) / Fraction(b)
             if op in ('/', '%'):
                 if b == 0:
                     raise AnalysisBroken('mini-interpreter: division by zero')
